@@ -1,4 +1,96 @@
+/-
+  C15 — `?Sized` is handled exactly: corollaries of the refinement theorems (Lemmas/Refine.lean, Props/C02.lean).
+  `m.blk.sizedParams` are the type parameters of the member's block that were *not* relaxed with `?Sized`;
+  `F.sizedParams` those of the generated main impl.
+-/
 import DisjointImpls.Lemmas.Refine
+import DisjointImpls.Props.C02
 namespace DI
-theorem C15_placeholder : (1 : Nat) = 1 := rfl
+
+/-- no leak: a member selected for `q` matches `q` with a substitution that instantiates every parameter the
+    member did not relax with a `Sized` type -/
+theorem C15_no_leak (W : World) (F : Family) (m : Member) (q : T) :
+    genSel W F m q → ∃ ρ, noEx ρ ∧ inst ρ m.blk.hdr = q ∧ sizedOK W ρ m.blk.sizedParams := by
+  intro h
+  obtain ⟨ρ, h0, h1, _, h3⟩ := gen_sub_spec W F m q h
+  exact ⟨ρ, h0, h1, h3⟩
+
+/-- contrapositive: a member that did not relax a parameter never answers a query that instantiates it with an
+    unsized type -/
+theorem C15_no_leak_contra (W : World) (F : Family) (m : Member) (q : T)
+    (h : ∀ ρ, noEx ρ → inst ρ m.blk.hdr = q → ∃ p ∈ m.blk.sizedParams, W.sized (inst ρ (.tparam p)) = false) :
+    ¬ genSel W F m q := by
+  intro hg
+  obtain ⟨ρ, h0, h1, h3⟩ := C15_no_leak W F m q hg
+  obtain ⟨p, hp, hf⟩ := h ρ h0 h1
+  rw [h3 p hp] at hf; cases hf
+
+/-- the same for the generated main impl: it only answers queries that instantiate its non-relaxed parameters
+    with `Sized` types -/
+theorem C15_main_impl_sized (W : World) (F : Family) (m : Member) (q : T) :
+    genSel W F m q → ∃ τ, noEx τ ∧ inst τ F.hdr = q ∧ sizedOK W τ F.sizedParams := by
+  rintro ⟨τ, _, h0, h1, h2, _⟩
+  exact ⟨τ, h0, h1, h2⟩
+
+/-- exactness: under the hypotheses of C02 (in particular `SizedCompat`: the main impl requires `Sized` of no
+    more than the member does) the member is selected exactly for the queries its block accepts, `Sized`
+    requirements included -/
+theorem C15_unsized_exact (W : World) (F : Family) (m : Member) (q : T)
+    (hm : memberOK F m = true) (hw : WorldTotal W F) (hθ : ThetaCovers F m) (hs : SizedCompat W F m) :
+    genSel W F m q ↔
+      ∃ ρ, noEx ρ ∧ inst ρ m.blk.hdr = q ∧ (∀ c ∈ m.blk.clauses, holds W ρ c) ∧ sizedOK W ρ m.blk.sizedParams :=
+  C02_member_selected_iff_applies W F m q hm hw hθ hs
+
+/-- relaxing is monotone: dropping parameters from the `Sized` list of a block only adds queries -/
+theorem C15_relax_monotone (W : World) (b : Block) (ps : List String) (hsub : ∀ p ∈ ps, p ∈ b.sizedParams) (q : T) :
+    applies W b q → applies W { b with sizedParams := ps } q := by
+  rintro ⟨ρ, h0, h1, h2, h3⟩
+  exact ⟨ρ, h0, h1, h2, fun p hp => h3 p (hsub p hp)⟩
+
+/-- a member with its `Sized` list replaced -/
+def Member.relax (m : Member) (ps : List String) : Member := { m with blk := { m.blk with sizedParams := ps } }
+
+/-- the family with member `m'` replaced by its relaxed version -/
+def Family.relaxMember (F : Family) (m' : Member) (ps : List String) : Family :=
+  { F with members := F.members.map (fun x => if x = m' then m'.relax ps else x) }
+
+/-- relaxation is local: changing the `?Sized` relaxations of one member `m'` leaves every other member in the
+    family, with the same block, selected for exactly the same queries -/
+theorem C15_relaxation_local (W : World) (F : Family) (m m' : Member) (ps : List String) (q : T)
+    (hm : m ∈ F.members) (hne : m ≠ m') :
+    m ∈ (F.relaxMember m' ps).members ∧
+    (genSel W (F.relaxMember m' ps) m q ↔ genSel W F m q) := by
+  refine ⟨?_, Iff.rfl⟩
+  exact List.mem_map.2 ⟨m, hm, by simp [hne]⟩
+
+/-- selection of a member does not depend on the other members of the family at all -/
+theorem C15_selection_ignores_members (W : World) (F : Family) (ms : List Member) (m : Member) (q : T) :
+    genSel W { F with members := ms } m q ↔ genSel W F m q := Iff.rfl
+
+/-- D7: `SizedCompat` is needed for exactness — a member relaxing `p` inside `Box<p>` applies to `Box<str>`,
+    the generated main impl (which keeps `p: Sized`) does not -/
+theorem C15_counterexample_D7 :
+    ∃ (W : World) (F : Family) (m : Member) (q : T),
+      memberOK F m = true ∧ applies W m.blk q ∧ ¬ genSel W F m q :=
+  C02_counterexample_D7
+
+/-- non-vacuity of `C15_no_leak_contra`: in the world of D7 (`str` unsized) a member `impl<p> … for Box<p>` that
+    did *not* relax `p` is never selected for `Box<str>` -/
+example :
+    let blk : Block := ⟨D7.bx (.tparam "p"), [⟨D7.bx (.tparam "p"), D7.d, [("G", D7.ga)]⟩], ["p"]⟩
+    let m : Member := ⟨blk, [("p", .identity)], [some D7.ga]⟩
+    let F : Family := ⟨D7.bx (.tparam "p"), [⟨D7.bx (.tparam "p"), D7.d, "G"⟩], ["p"], [m]⟩
+    memberOK F m = true ∧ ¬ genSel D7.W F m (D7.bx D7.str) := by
+  refine ⟨by decide, ?_⟩
+  apply C15_no_leak_contra
+  intro ρ hρ he
+  refine ⟨"p", by simp, ?_⟩
+  have : inst ρ (.tparam "p") = D7.str := by
+    simp only [D7.bx] at he
+    rw [inst_node ρ hρ] at he
+    simp only [instL] at he
+    injection he with _ _ h3
+    injection h3
+  rw [this]; decide
+
 end DI
